@@ -7,5 +7,6 @@ CONSTANTS
   Emit = FALSE
   Retries = 2
   RetrySwitchesPeer = FALSE
+  RemembersPrimary = FALSE
 INVARIANTS TypeOK Safety
 CHECK_DEADLOCK FALSE
